@@ -14,6 +14,11 @@ MCAlphabetSmall == {A("get", "a"), A("set", "a"), A("set", "b"), A("del", "a"), 
 MCAlphabetPM == {A("goc", "a"), A("goc", "b"), A("goc", "c"), A("clear", L!NONE), A("len", L!NONE)}
 MCAlphabetMix == {A("goc", "a"), A("goc", "b"), A("get", "a"), A("set", "a"), A("del", "a"), A("clear", L!NONE)}
 MCInitConts == {<<>>, <<L!Entry("a", 101)>>, <<L!Entry("a", 101), L!Entry("b", 102)>>, <<L!Entry("b", 102), L!Entry("a", 101)>>}
+\* quick tier: every method, hit and miss, eviction and replacement, in a state space of ~10^5
+MCAlphabetQ == {A("get", "a"), A("set", "a"), A("set", "b"), A("del", "a"), A("clear", L!NONE)}
+MCInitQ == {<<>>, <<L!Entry("a", 101)>>, <<L!Entry("a", 101), L!Entry("b", 102)>>}
+MCMaxSizesQ == {1, 2}
+MCInitPM == {<<>>, <<L!Entry("a", 101)>>}
 T2 == {1, 2}
 T3 == {1, 2, 3}
 
